@@ -164,7 +164,6 @@ def handle (line : String) : String :=
         let holds := decide (RunSpec b mds uses out)
         let filters := Json.mkObj [
           ("typeClean", decide (∀ p ∈ resolveAll b mds uses, TypeClean p.1)),
-          ("kindDefault", decide (∀ md ∈ mds, md.mdType = b.mdType → KindDefault b md)),
           ("cmsIsCollection", decide (∀ md ∈ mds, md.mdType = b.mdType → CmsIsCollection b md)),
           ("nameClean", decide (∀ u ∈ uses, NameClean u.name)),
           ("wellTyped", decide (∀ md ∈ mds, md.WellTyped))]
@@ -177,7 +176,7 @@ def handle (line : String) : String :=
           | .ok c => ("ok", jRow c)
           | .error e => (errKind e, Json.null)
         pure (Json.mkObj [("model", m), ("spec", sp), ("valid", decide (ValidMd b md)), ("welltyped", decide (md.WellTyped ∧ keysDistinct md)),
-          ("flag", md.flag), ("kindDefault", decide (KindDefault b md)), ("cmsIsCollection", decide (CmsIsCollection b md))])
+          ("flag", md.flag), ("cmsIsCollection", decide (CmsIsCollection b md))])
       else if op == "subst" then
         let l ← getT j "line"
         let lit ← getT j "lit"
@@ -211,7 +210,7 @@ def handle (line : String) : String :=
           (Gen.readmeAtlasKeys.filter (fun k => !(Backend.whitelist .atlas).contains k)).map (bad "documented-key-refused" "atlas") ++
           (Gen.readmeCmsAodKeys.filter (fun k => !(Backend.whitelist .cmsAod).contains k)).map (bad "documented-key-refused" "cms_aod") ++
           (Gen.readmeCmsMiniaodKeys.filter (fun k => !(Backend.whitelist .cmsMiniaod).contains k)).map (bad "documented-key-refused" "cms_miniaod")
-        let readBad := Gen.mdBranches.flatMap (fun br => (br.whitelist.filter (fun k => k != T "element_pointer" && k != T "metadata_type" && !br.readKeys.contains k)).map
+        let readBad := Gen.mdBranches.flatMap (fun br => (br.whitelist.filter (fun k => k != T "metadata_type" && !br.readKeys.contains k)).map
           (bad "accepted-key-never-read" (S br.specBackend)))
         let dtBad := (if decide (DefaultTypesOk Gen.atlasDefaultTypes ∧ DefaultTypesOk Gen.cmsAodDefaultTypes ∧ DefaultTypesOk Gen.cmsMiniaodDefaultTypes ∧
             DefaultTypesReachable Gen.atlasCollections Gen.atlasDefaultTypes ∧ DefaultTypesReachable Gen.cmsAodCollections Gen.cmsAodDefaultTypes)
